@@ -64,4 +64,9 @@ int cmd_script (FILE *in) ;
 int cmd_batch (FILE *in, int timeout_s) ;
 int cmd_grid (int argc, char **argv) ;
 
+/* chunks.c (C13) */
+SNDFILE *sfh_handle_sf (const char *name) ;
+SF_CHUNK_ITERATOR **sfh_handle_it (const char *name) ;
+void op_chunks (char **tok, int ntok) ;
+
 #endif
